@@ -167,10 +167,22 @@ class Evaluator:
                 f.env[n.id] = UNKNOWN
             if isinstance(n, ast.Attribute) and isinstance(n.ctx, ast.Store):
                 f.attrs[ast.unparse(n)] = UNKNOWN
-            if isinstance(n, ast.Subscript) and isinstance(n.ctx, ast.Store) and isinstance(n.value, ast.Name):
-                f.env[n.value.id] = UNKNOWN
-            if isinstance(n, ast.Call) and isinstance(n.func, ast.Attribute) and n.func.attr in ("append", "extend", "insert", "update", "pop", "remove") and isinstance(n.func.value, ast.Name):
-                f.env[n.func.value.id] = UNKNOWN
+            if isinstance(n, ast.Subscript) and isinstance(n.ctx, ast.Store):
+                base = n.value
+                while isinstance(base, ast.Subscript):
+                    base = base.value
+                if isinstance(base, ast.Name):
+                    f.env[base.id] = UNKNOWN
+                elif isinstance(base, ast.Attribute):
+                    f.attrs[ast.unparse(base)] = UNKNOWN
+            if isinstance(n, ast.Call) and isinstance(n.func, ast.Attribute) and n.func.attr in ("append", "extend", "insert", "update", "pop", "remove", "setdefault", "clear", "add", "discard", "popitem", "sort", "reverse"):
+                base = n.func.value
+                while isinstance(base, ast.Subscript):
+                    base = base.value
+                if isinstance(base, ast.Name):
+                    f.env[base.id] = UNKNOWN
+                elif isinstance(base, ast.Attribute):
+                    f.attrs[ast.unparse(base)] = UNKNOWN
 
     def stmt(self, s, f: Frame):
         self.steps += 1
@@ -254,6 +266,12 @@ class Evaluator:
             f.attrs[ast.unparse(t)] = v
         elif isinstance(t, ast.Subscript):
             base = self.ev(t.value, f)
+            if isinstance(base, dict):
+                key = self.ev(t.slice, f)
+                if not isinstance(key, (str, int, tuple)) or isinstance(key, bool):
+                    raise NotEval("symbolic key")
+                base[key] = v
+                return
             if not isinstance(base, list):
                 raise NotEval("store into a non-list")
             idx = self.index(t.slice, f)
